@@ -59,6 +59,28 @@ mod verif_standins {
             assert_eq!(p.verify_knowledge_of_opening(&params, c), reference(&p, &params, c.to_scalar()));
         }
     }
+    /// public addition inside ONE proof: two slots share a commitment scalar but carry different values; the responses differ
+    /// by c * (difference) and the honest proof verifies
+    fn check_public_addition<const N: usize>() {
+        let mut rng = rng();
+        let params = PedersenParameters::<G1Projective, N>::new(&mut rng);
+        for (a, d) in [(Scalar::from(7), Scalar::from(5)), (Scalar::zero(), Scalar::one()), (-Scalar::one(), Scalar::from(1u64 << 40))] {
+            let mut m = [Scalar::from(3); N];
+            m[0] = a; m[N - 1] = a + d;
+            let s = Scalar::from(13);
+            let mut given = [None; N];
+            given[0] = Some(s); given[N - 1] = Some(s);
+            let b = CommitmentProofBuilder::generate_proof_commitments(&mut rng, Message::new(m), &given, &params);
+            let c = ChallengeBuilder::new().with(&b).finish();
+            let p = b.generate_proof_response(c);
+            let z = p.conjunction_response_scalars();
+            assert!(z[N - 1] == z[0] + c.to_scalar() * d, "STANDIN cproof.generate_proof_response: slots sharing a commitment scalar but carrying different values do not differ by c * (difference)");
+            assert!(z[0] == c.to_scalar() * a + s, "STANDIN cproof.generate_proof_response: response is not c*m + s");
+            assert!(p.verify_knowledge_of_opening(&params, c), "STANDIN cproof: honest proof using the public-addition pattern inside one proof rejected, N={}", N);
+        }
+    }
+    #[test] fn standin_cproof_public_addition() { check_public_addition::<2>(); check_public_addition::<5>(); }
+
     #[test] fn standin_cproof_patterns() { check_patterns::<2>(); check_patterns::<3>(); check_patterns::<5>(); }
 
     fn challenge_from(c: Scalar) -> Challenge { unsafe { core::mem::transmute::<Scalar, Challenge>(c) } }
